@@ -305,6 +305,10 @@ def lift_block(fb, it):
         if not m3:
             raise WeaveError(f'{fb.path}: lifted line is not `PATTERN => match X {{`: {line.strip()}')
         block = '{ ' + m3.group(1) + block + ' }'
+    if 'okwrap' in fb.opts:
+        # (R5f) the lifted block is an expression-valued block of a function that returns `Result<_, E>` and uses `?` inside: the generated
+        # function returns `Ok(BLOCK)`, so that `?` keeps its meaning (an early `Err` return of the enclosing function)
+        block = '{ Ok(' + block + ') }'
     frm = fb.lift.get('from')
     if frm:
         # R5d: the statements of the block before the first line matching the regex are dropped; the variables they bind are
